@@ -215,11 +215,13 @@ func (c *ConfigFile) EntryForRegistry(registryHostname string) (ConfigEntry, err
 		// existing. See https://github.com/cue-lang/cue/issues/2934.
 	}
 	auth := c.data.Auths[registryHostname]
-	if auth.IdentityToken != "" && auth.Username != "" {
-		return ConfigEntry{}, fmt.Errorf("ambiguous auth credentials")
-	}
+	// Check for several entries first: when there are, the credentials
+	// held in auth are those of an arbitrary one of them.
 	if len(auth.derivedFrom) > 1 {
 		return ConfigEntry{}, fmt.Errorf("more than one auths entry for %q (%s)", registryHostname, strings.Join(auth.derivedFrom, ", "))
+	}
+	if auth.IdentityToken != "" && auth.Username != "" {
+		return ConfigEntry{}, fmt.Errorf("ambiguous auth credentials")
 	}
 
 	return ConfigEntry{
@@ -298,7 +300,7 @@ func decodeAuth(authStr string) (string, string, error) {
 	}
 	// The zero-byte-trimming logic here mimics the logic in the
 	// docker CLI configfile package.
-	return username, strings.Trim(password, "\x00"), nil
+	return username, strings.TrimRight(password, "\x00"), nil
 }
 
 // ExecHelper executes an external program to get the credentials from a native store.
